@@ -14,7 +14,6 @@ package simrt
 import (
 	"fmt"
 	"hash/fnv"
-	"math/rand/v2"
 	"runtime"
 	"strings"
 	"sync"
@@ -22,6 +21,7 @@ import (
 	"testing"
 	"testing/synctest"
 	"time"
+	"unsafe"
 )
 
 // ---------------------------------------------------------------------------
@@ -137,14 +137,14 @@ type Sim struct {
 	byGoid map[uint64]*Task
 	all    []*Task
 	active []*Task // tasks that have not finished, in creation order
-	names  map[string]bool
 	cur    *Task
 	main   *Task
 	wakeCh chan struct{}
 	rootGoid uint64
+	joinTok  int64 // address used as a synchronisation token for the race detector
 
 	plan, run stream
-	rng       *rand.Rand
+	rng       *pcg
 
 	start    time.Time
 	elapsed  time.Duration
@@ -160,8 +160,11 @@ type Sim struct {
 	trace     []string
 	seq       uint64
 
-	counters map[string]int
-	info     map[string]string
+	// counters and info are association lists, not maps: the runtime reports
+	// map accesses to the race detector even from packages compiled without
+	// it, and the memory-model tier wants a quiet log
+	counters []counter
+	info     [][2]string
 
 	// strategy state
 	strat     int
@@ -203,10 +206,7 @@ func newSim(cfg Config) *Sim {
 	s := &Sim{
 		cfg:      cfg,
 		byGoid:   map[uint64]*Task{},
-		names:    map[string]bool{},
-		counters: map[string]int{},
-		info:     map[string]string{},
-		rng:      rand.New(rand.NewPCG(cfg.Seed, 0x9e3779b97f4a7c15)),
+		rng:      newPCG(cfg.Seed, 0x9e3779b97f4a7c15),
 	}
 	s.plan = stream{replay: cfg.PlanVec, useRep: cfg.Replay}
 	s.run = stream{replay: cfg.RunVec, useRep: cfg.Replay}
@@ -242,14 +242,27 @@ func newSim(cfg Config) *Sim {
 func Run(t *testing.T, cfg Config, body func(s *Sim)) *Result {
 	s := newSim(cfg)
 	bubble := ""
-	func() {
+	bubbleRun := func() {
 		defer func() {
 			if r := recover(); r != nil {
 				bubble = fmt.Sprint(r)
 			}
 		}()
 		synctest.Test(t, func(t *testing.T) { s.root(body) })
-	}()
+	}
+	if RaceEnabled {
+		// a report of the race detector makes the testing package fail the bubble's
+		// test, and synctest.Test then ends the calling goroutine (FailNow): give
+		// it one of its own, the worker goes on and reads the report itself
+		fin := make(chan struct{})
+		go func() {
+			defer close(fin)
+			bubbleRun()
+		}()
+		<-fin
+	} else {
+		bubbleRun()
+	}
 	res := s.result()
 	if bubble != "" {
 		if strings.Contains(bubble, "blocked goroutines remain") || strings.Contains(bubble, "deadlock") {
@@ -272,11 +285,17 @@ func (s *Sim) result() *Result {
 		SchedHash: s.schedHash,
 		LogHash:   s.logHash,
 		Trace:     s.trace,
-		Counters:  s.counters,
+		Counters:  map[string]int{},
 		Strategy:  stratNames[s.strat],
 		Preempts:  s.preempts,
 		Tasks:     len(s.all),
-		Info:      s.info,
+		Info:      map[string]string{},
+	}
+	for _, c := range s.counters {
+		r.Counters[c.name] = c.n
+	}
+	for _, kv := range s.info {
+		r.Info[kv[0]] = kv[1]
 	}
 	if s.fail != nil {
 		r.Verdict = "violation"
@@ -290,13 +309,19 @@ func (s *Sim) result() *Result {
 }
 
 func (s *Sim) root(body func(*Sim)) {
+	// the scheduler's own goroutine never synchronises anything as far as the
+	// race detector is concerned (see race_on.go)
+	raceOff()
+	defer raceOn()
 	current.Store(s)
 	defer current.Store(nil)
 	s.wakeCh = make(chan struct{}, 1) // must be created inside the bubble
 	s.rootGoid = goid()
 	s.start = time.Now()
 	s.main = s.newTask("main", "harness", false)
+	raceOn()
 	s.startTask(s.main, func() { body(s) })
+	raceOff()
 	s.loop()
 	s.elapsedSnap()
 	s.shutdown()
@@ -532,6 +557,8 @@ func (s *Sim) stall(why string) {
 // TaskDump lists every live task and where it is.
 func (s *Sim) TaskDump() string {
 	var b strings.Builder
+	raceOff()
+	defer raceOn()
 	s.mu.Lock()
 	defer s.mu.Unlock()
 	for _, t := range s.all {
@@ -554,6 +581,8 @@ func (s *Sim) TaskDump() string {
 
 // LiveTasks returns the tasks that have not finished, in creation order.
 func (s *Sim) LiveTasks() []*Task {
+	raceOff()
+	defer raceOn()
 	s.mu.Lock()
 	defer s.mu.Unlock()
 	var out []*Task
@@ -568,6 +597,8 @@ func (s *Sim) LiveTasks() []*Task {
 // Where describes a live task's position: "runnable@site", "blocked@site:what"
 // or "chan@lastSite".
 func (s *Sim) Where(t *Task) string {
+	raceOff()
+	defer raceOn()
 	s.mu.Lock()
 	defer s.mu.Unlock()
 	switch {
@@ -611,10 +642,11 @@ func (s *Sim) shutdown() {
 func (s *Sim) newTask(id, origin string, lib bool) *Task {
 	s.mu.Lock()
 	defer s.mu.Unlock()
-	if s.names[id] {
-		panic("simrt: duplicate task id " + id)
+	for _, x := range s.all {
+		if x.ID == id {
+			panic("simrt: duplicate task id " + id)
+		}
 	}
-	s.names[id] = true
 	t := &Task{ID: id, Origin: origin, Lib: lib, idx: len(s.all), wake: make(chan struct{}, 1)}
 	t.parked = true
 	t.site = "start:" + origin
@@ -627,12 +659,19 @@ func (s *Sim) newTask(id, origin string, lib bool) *Task {
 
 type exitSentinel struct{}
 
+// startTask must be called with the race detector's view enabled: the go
+// statement is the one edge (creator happens-before task) the detector is meant
+// to see.  Everything the new goroutine does before and after f is the
+// scheduler's business and hidden.
 func (s *Sim) startTask(t *Task, f func()) {
 	go func() {
+		raceOff()
 		g := goid()
 		s.mu.Lock()
 		t.goid = g
-		s.byGoid[g] = t
+		if !RaceEnabled {
+			s.byGoid[g] = t
+		}
 		s.mu.Unlock()
 		defer func() {
 			r := recover()
@@ -641,10 +680,15 @@ func (s *Sim) startTask(t *Task, f func()) {
 				buf := make([]byte, 16<<10)
 				stack = string(buf[:runtime.Stack(buf, false)])
 			}
+			// what the task did happens-before whoever joins it (Sim.Joined)
+			raceReleaseMerge(unsafe.Pointer(&s.joinTok))
+			raceOff()
 			s.mu.Lock()
 			t.done = true
 			t.parked = false
-			delete(s.byGoid, g)
+			if !RaceEnabled {
+				delete(s.byGoid, g)
+			}
 			s.mu.Unlock()
 			s.live.Add(-1)
 			if r != nil && !s.stopping.Load() {
@@ -660,9 +704,15 @@ func (s *Sim) startTask(t *Task, f func()) {
 		if s.stopping.Load() {
 			return
 		}
+		raceOn()
 		f()
 	}()
 }
+
+// Joined is what a harness task calls after it has waited (by a Block on
+// harness state) for other tasks to finish: it is the join edge a real program
+// would have from a WaitGroup or a channel.  Only the race detector sees it.
+func (s *Sim) Joined() { raceAcquire(unsafe.Pointer(&s.joinTok)) }
 
 func (s *Sim) crash(t *Task, val interface{}, stack string) {
 	if s.OnCrash != nil && s.OnCrash(t, val, stack) {
@@ -724,7 +774,9 @@ func trimStack(st string) string {
 
 // Spawn starts a harness task with a stable, unique name.
 func (s *Sim) Spawn(name string, f func()) *Task {
+	raceOff()
 	t := s.newTask(name, "harness", false)
+	raceOn()
 	s.startTask(t, f)
 	return t
 }
@@ -736,13 +788,16 @@ func Go(site string, f func()) {
 		go f()
 		return
 	}
+	raceOff()
 	p := s.self()
 	if p == nil {
+		raceOn()
 		go f()
 		return
 	}
 	p.spawned++
 	t := s.newTask(fmt.Sprintf("%s/%d", p.ID, p.spawned), site, true)
+	raceOn()
 	s.startTask(t, f)
 }
 
@@ -754,18 +809,23 @@ func AfterFunc(d time.Duration, f func()) *time.Timer {
 	if s == nil {
 		return time.AfterFunc(d, f)
 	}
+	raceOff()
 	p := s.self()
 	if p == nil {
+		raceOn()
 		return time.AfterFunc(d, f)
 	}
 	p.spawned++
 	t := s.newTask(fmt.Sprintf("%s/%d", p.ID, p.spawned), "time.AfterFunc", true)
+	raceOn()
 	var fired atomic.Bool
 	s.startTask(t, func() {
 		Block("time.AfterFunc", "timer", func() bool { return fired.Load() })
 		f()
 	})
 	return time.AfterFunc(d, func() {
+		raceOff()
+		defer raceOn()
 		fired.Store(true)
 		select {
 		case s.wakeCh <- struct{}{}:
@@ -780,13 +840,28 @@ func (s *Sim) self() *Task {
 		panic("simrt: instrumented or blocking code called from the scheduler (a Block predicate must only read harness state)")
 	}
 	s.mu.Lock()
-	t := s.byGoid[g]
+	var t *Task
+	if RaceEnabled {
+		// no map here either (see counters); the live tasks are few
+		for _, x := range s.all {
+			if x.goid == g && !x.done {
+				t = x
+				break
+			}
+		}
+	} else {
+		t = s.byGoid[g]
+	}
 	s.mu.Unlock()
 	return t
 }
 
 // Self returns the calling task (nil outside a task).
-func (s *Sim) Self() *Task { return s.self() }
+func (s *Sim) Self() *Task {
+	raceOff()
+	defer raceOn()
+	return s.self()
+}
 
 // ---------------------------------------------------------------------------
 // parking
@@ -834,6 +909,8 @@ func Yield(site string) {
 	if s == nil {
 		return
 	}
+	raceOff()
+	defer raceOn()
 	t := s.self()
 	if t == nil {
 		return
@@ -848,6 +925,8 @@ func Block(site, what string, pred func() bool) {
 	if s == nil {
 		panic("simrt.Block outside a simulation")
 	}
+	raceOff()
+	defer raceOn()
 	t := s.self()
 	if t == nil {
 		panic("simrt.Block on a goroutine that is not a task (" + site + ")")
@@ -858,6 +937,8 @@ func Block(site, what string, pred func() bool) {
 // BlockFor parks until pred holds or d of simulated time has passed; it
 // reports whether pred held.
 func BlockFor(site, what string, d time.Duration, pred func() bool) bool {
+	raceOff()
+	defer raceOn()
 	s := current.Load()
 	t := s.self()
 	if t == nil {
@@ -873,6 +954,8 @@ func BlockFor(site, what string, d time.Duration, pred func() bool) bool {
 
 // Sleep advances simulated time for the calling task.
 func Sleep(d time.Duration) {
+	raceOff()
+	defer raceOn()
 	s := current.Load()
 	t := s.self()
 	if t == nil {
@@ -888,6 +971,8 @@ func Sleep(d time.Duration) {
 
 // WaitIdle parks the calling task until no other task is runnable.
 func WaitIdle() {
+	raceOff()
+	defer raceOn()
 	s := current.Load()
 	t := s.self()
 	if t == nil {
@@ -925,7 +1010,7 @@ func (s *Sim) ChooseW(w ...int) int {
 	return s.run.draw(len(w), func() int { return weighted(s.rng, w) })
 }
 
-func weighted(r *rand.Rand, w []int) int {
+func weighted(r *pcg, w []int) int {
 	tot := 0
 	for _, x := range w {
 		tot += x
@@ -946,6 +1031,8 @@ func weighted(r *rand.Rand, w []int) int {
 // Fail records a violation (the first one wins) and ends the run.  When called
 // from a task, the task does not continue.
 func (s *Sim) Fail(class, format string, args ...interface{}) {
+	raceOff()
+	defer raceOn()
 	if s.fail == nil {
 		s.fail = &Failure{Class: class, Msg: fmt.Sprintf(format, args...)}
 		s.Logf("FAIL %s: %s", class, s.fail.Msg)
@@ -960,6 +1047,8 @@ func (s *Sim) Failed() bool { return s.fail != nil }
 
 // Inconclusive ends the run without a verdict.
 func (s *Sim) Inconclusive(format string, args ...interface{}) {
+	raceOff()
+	defer raceOn()
 	if s.inconcl == "" {
 		s.inconcl = fmt.Sprintf(format, args...)
 	}
@@ -986,13 +1075,34 @@ func (s *Sim) Logf(format string, args ...interface{}) {
 func (s *Sim) Tracing() bool { return s.cfg.Trace }
 
 // Count increments a fault/probe counter.
-func (s *Sim) Count(name string) { s.counters[name]++ }
+func (s *Sim) Count(name string) { s.CountN(name, 1) }
+
+type counter struct {
+	name string
+	n    int
+}
 
 // CountN adds to a counter.
-func (s *Sim) CountN(name string, n int) { s.counters[name] += n }
+func (s *Sim) CountN(name string, n int) {
+	for i := range s.counters {
+		if s.counters[i].name == name {
+			s.counters[i].n += n
+			return
+		}
+	}
+	s.counters = append(s.counters, counter{name, n})
+}
 
 // SetInfo records a string about the run (plan summary etc.).
-func (s *Sim) SetInfo(k, v string) { s.info[k] = v }
+func (s *Sim) SetInfo(k, v string) {
+	for i := range s.info {
+		if s.info[i][0] == k {
+			s.info[i][1] = v
+			return
+		}
+	}
+	s.info = append(s.info, [2]string{k, v})
+}
 
 // Steps returns the number of scheduler steps so far.
 func (s *Sim) Steps() int { return s.steps }
